@@ -1,6 +1,105 @@
 import DriverOps.Common
-/- driver ops with prefix "wr." (owned by the Writer model) -/
-open Lean Lasio
+/- driver ops with prefix "wr." (owned by the Writer model)
 
-def handleWriter (op : String) (j : Json) : Except String Json :=
-  throw s!"op {op} not implemented"
+"wr.header"   {"version": "1.2"|"2.0", "header_width": n, "wrap": true|false|null (optional, default null),
+               "version_tr": bool (optional, default false),
+               "sections": {"Version":[item..], "Well":[..], "Curves":[..], "Parameter":[..]}, "other": text}
+              item = [orig, session, unit, [text, falsy, isZero, isNone], descr]
+              -> {"lines":[..], "values_after": {"Well":[[text,falsy,isZero,isNone]..], "Parameter":[..]},
+                  "version_after": [[orig, session, unit, text, descr]..]}   |  {"raise": "KeyError"|...}
+"wr.readitem" {"version", "kind": "Version"|"Well"|"Curves"|"Parameter"|other, "case": "preserve"|"upper"|"lower",
+               "line"} -> [name, unit, rawvalue, descr] | null
+"wr.readline" same request -> "skip" | "stop" | "error" | [name, unit, rawvalue, descr]   (line stripped first, comments)
+"wr.readsection" {"version","kind","case","lines":[..]} -> [[name, unit, rawvalue, descr]..] | null
+"wr.std"      {"value": [text, falsy, isZero, isNone], "unit": u} -> [text, falsy, isZero, isNone]
+"wr.order"    {"version","section","mnemonic"} -> "value:descr" | "descr:value" | {"raise": ..}
+"wr.splitlines" {"text"} -> [..]
+-/
+open Lean Lasio
+/- the writer model lives in `Lasio.Wr`; names are qualified here because `DriverOps.Common` imports every model file -/
+
+def getWVal (j : Json) : Except String Wr.WVal := do
+  let a ← arr j
+  pure ⟨← getS a[0]!, ← (a[1]!).getBool?, ← (a[2]!).getBool?, ← (a[3]!).getBool?⟩
+
+def jWVal (v : Wr.WVal) : Json := Json.arr #[jstr v.text, Json.bool v.falsy, Json.bool v.isZero, Json.bool v.isNone]
+
+def getWItem (j : Json) : Except String Wr.WItem := do
+  let a ← arr j
+  pure ⟨← getS a[0]!, ← getS a[1]!, ← getS a[2]!, ← getWVal a[3]!, ← getS a[4]!⟩
+
+def jRItem (r : Wr.RItem) : Json := Json.arr #[jstr r.name, jstr r.unit, jstr r.value, jstr r.descr]
+
+def jraise (e : Err) : Json := Json.mkObj [("raise", jerr e)]
+
+def getCase (s : String) : Except String Wr.MCase :=
+  match s with
+  | "preserve" => pure .preserve | "upper" => pure .upper | "lower" => pure .lower
+  | _ => throw s!"bad case {s}"
+
+def wrKind (s : String) : SecName :=
+  match s with
+  | "Version" => .version | "Well" => .well | "Curves" => .curves | "Parameter" => .parameter | _ => .other
+
+def optBool (j : Json) (k : String) : Except String (Option Bool) :=
+  match j.getObjVal? k with
+  | .ok (.bool b) => pure (some b)
+  | .ok .null => pure none
+  | .ok _ => throw s!"{k}: expected bool or null"
+  | .error _ => pure none
+
+def handleWriter (op : String) (j : Json) : Except String Json := do
+  match op with
+  | "wr.header" =>
+    let version ← (← fld j "version").getStr?
+    let hw ← (← fld j "header_width").getNat?
+    let wrap ← optBool j "wrap"
+    let vtr := (← optBool j "version_tr").getD false
+    let secs ← fld j "sections"
+    let sec := fun (k : String) => do getList getWItem (← fld secs k)
+    let las : Wr.WLas := ⟨← sec "Version", vtr, ← sec "Well", ← sec "Curves", ← sec "Parameter", ← fldS j "other"⟩
+    match Wr.headerLines version wrap hw las with
+    | .error e => pure (jraise e)
+    | .ok (lines, las') =>
+      pure (Json.mkObj [
+        ("lines", jlist jstr lines),
+        ("values_after", Json.mkObj [("Well", jlist (fun it => jWVal it.value) las'.well),
+                                     ("Parameter", jlist (fun it => jWVal it.value) las'.params)]),
+        ("version_after", jlist (fun (it : Wr.WItem) =>
+          Json.arr #[jstr it.orig, jstr it.session, jstr it.unit, jstr it.value.text, jstr it.descr]) las'.version)])
+  | "wr.readitem" =>
+    let version ← (← fld j "version").getStr?
+    let kind ← (← fld j "kind").getStr?
+    let c ← getCase (← (← fld j "case").getStr?)
+    match Wr.readItem version (wrKind kind) c (← fldS j "line") with
+    | some r => pure (jRItem r)
+    | none => pure Json.null
+  | "wr.readline" =>
+    let version ← (← fld j "version").getStr?
+    let kind ← (← fld j "kind").getStr?
+    let c ← getCase (← (← fld j "case").getStr?)
+    match Wr.readLine version (wrKind kind) c (← fldS j "line") with
+    | .skip => pure (Json.str "skip")
+    | .stop => pure (Json.str "stop")
+    | .error => pure (Json.str "error")
+    | .item r => pure (jRItem r)
+  | "wr.readsection" =>
+    let version ← (← fld j "version").getStr?
+    let kind ← (← fld j "kind").getStr?
+    let c ← getCase (← (← fld j "case").getStr?)
+    let lines ← getList getS (← fld j "lines")
+    match Wr.readSection version (wrKind kind) c lines with
+    | some rs => pure (jlist jRItem rs)
+    | none => pure Json.null
+  | "wr.std" =>
+    let v ← getWVal (← fld j "value")
+    pure (jWVal (Wr.standardizeValue v (← fldS j "unit")))
+  | "wr.order" =>
+    let version ← (← fld j "version").getStr?
+    let s ← (← fld j "section").getStr?
+    match Wr.orderOf version s (← fldS j "mnemonic") with
+    | .ok .valueDescr => pure (Json.str "value:descr")
+    | .ok .descrValue => pure (Json.str "descr:value")
+    | .error e => pure (jraise e)
+  | "wr.splitlines" => pure (jlist jstr (Wr.splitlines (← fldS j "text")))
+  | _ => throw s!"op {op} not implemented"
